@@ -12,7 +12,7 @@ import sys
 import threading
 
 VERIF = os.path.dirname(os.path.dirname(os.path.abspath(__file__)))
-WORLDS = [("c07", 0, "plain"), ("c11", 0, "asan"), ("c11", 0, "plain"), ("c12", 0, "tsan"), ("c15", 0, "plain"), ("c16", 0, "plain"), ("c16", 1, "plain"), ("c18", 0, "plain")]
+WORLDS = [("c07", 0, "plain"), ("c11", 0, "asan"), ("c11", 0, "plain"), ("c12", 0, "tsan"), ("c12", 1, "tsan"), ("c12", 1, "drd"), ("c15", 0, "plain"), ("c16", 0, "plain"), ("c16", 1, "plain"), ("c18", 0, "plain")]
 
 
 def batch(binary, world, variant, seed, n, workers, prefix=()):
@@ -51,14 +51,16 @@ def batch(binary, world, variant, seed, n, workers, prefix=()):
 def main():
     n = int(sys.argv[1]) if len(sys.argv) > 1 else 2000
     seed = int(sys.argv[2]) if len(sys.argv) > 2 else 777
-    for fl in ("plain", "tsan", "asan"):
+    for fl in ("plain", "tsan", "asan", "drd"):
         r = subprocess.run([os.path.join(VERIF, "checks", "build_world.sh"), fl])
         if r.returncode:
             return 2
     bad = 0
     noaslr = ["setarch", "-R"] if subprocess.run(["setarch", "-R", "true"], capture_output=True).returncode == 0 else []
+    n_all = n
     for (world, variant, fl) in WORLDS:
         binary = os.path.join(VERIF, "build", "world_" + fl)
+        n = n_all if fl != "drd" else max(32, n_all // 10)  # valgrind: ~0.2 s per world
         a = batch(binary, world, variant, seed, n, 16)
         b = batch(binary, world, variant, seed, n, 4)
         c = batch(binary, world, variant, seed, n, 1 if n <= 400 else 2, prefix=noaslr)
@@ -68,6 +70,9 @@ def main():
         for k in diff[:3]:
             print("   run", k, a.get(k), b.get(k), c.get(k))
         bad += len(diff) + len(missing)
+    import glob
+    for lf in glob.glob(os.path.join(VERIF, "build", "drd_logs", "*.log")):
+        os.remove(lf)
     print("DETERMINISM", "OK" if not bad else "FAILED")
     return 1 if bad else 0
 
